@@ -49,7 +49,7 @@ Definition new_outer (s : state) (n i : id) : state := set_ipins s n (assoc_set 
    del reference._pins[pin] *)
 Definition drop_outer (s : state) (n i : id) : R :=
   match assoc i (ipins s n) with
-  | None => raise s XKey
+  | None => raise s XStuck
   | Some ow =>
       let s1 := match ow with
                 | Some w =>
@@ -237,7 +237,7 @@ Definition rename_pin (a b : pin) (x : pin) : pin := if pin_eqb x a then b else 
 Definition rekey (s : state) (n : id) (cn : id * id) : R :=
   let '(cur, new) := cn in
   match assoc cur (ipins s n) with
-  | None => raise s XKey
+  | None => raise s XStuck
   | Some ow =>
       let s1 := set_ipins s n (assoc_set new ow (assoc_del cur (ipins s n))) in
       ret (match ow with
@@ -260,13 +260,13 @@ Definition op_set_reference (s : state) (x : id) (v : option id) : R :=
       fold_idsR (fun s i => drop_outer s x i) (map fst (ipins s1 x)) s1 >>= fun s2 =>
       let s3 := set_ipins s2 x [] in
       (match iref s3 x with
-       | Some d => if memb x (drefs s3 d) then ret (set_drefs s3 d (remove_first x (drefs s3 d))) else raise s3 XKey
+       | Some d => if memb x (drefs s3 d) then ret (set_drefs s3 d (remove_first x (drefs s3 d))) else raise s3 XStuck
        | None => ret s3
        end) >>= fun s4 => ret (set_iref s4 x None)
   | Some d' =>
       (match iref s1 x with
        | Some d =>
-           (if memb x (drefs s1 d) then ret (set_drefs s1 d (remove_first x (drefs s1 d))) else raise s1 XKey)
+           (if memb x (drefs s1 d) then ret (set_drefs s1 d (remove_first x (drefs s1 d))) else raise s1 XStuck)
            >>= fun s2 => fold_pairsR (fun s cn => rekey s x cn) (pin_pairs s2 d d') s2
        | None => ret (fold_ids (fun s i => new_outer s x i) (port_pins s1 d') s1)
        end) >>= fun s3 =>
